@@ -6,6 +6,7 @@ import (
 	"fmt"
 	"net/url"
 	"strings"
+	"sync"
 	"time"
 )
 
@@ -303,6 +304,20 @@ type PCS struct {
 	ByURL   map[string]*Endpoint // root CRL distribution points and anything else
 	Log     []Request
 	OnFetch func(req Request) // park point / observer (may be nil)
+	// Latency, if set, is the simulated service time of the n-th fetch.  It is slept only while
+	// InBubble is set (inside a testing/synctest bubble, where sleeping advances the fake clock and
+	// costs nothing): the completion order of concurrent fetches, and of a fetch against pure
+	// computation, is then decided by these numbers and not by the Go scheduler.
+	Latency  func(req Request, n int) time.Duration
+	InBubble bool
+	mu       sync.Mutex
+}
+
+// LatencyProfile returns a Latency function: a fixed table walked from a seed, so that consecutive
+// fetches differ (a later fetch may finish before an earlier one if they run concurrently).
+func LatencyProfile(seed int) func(Request, int) time.Duration {
+	table := []time.Duration{150 * time.Millisecond, time.Millisecond, 700 * time.Millisecond, 20 * time.Millisecond, 2500 * time.Millisecond, 11 * time.Second, 40 * time.Millisecond}
+	return func(_ Request, n int) time.Duration { return table[(seed+3*n)%len(table)] }
 }
 
 // NewPCS returns an empty server.
@@ -355,9 +370,15 @@ func (p *PCS) Get(raw string) (map[string][]string, []byte, error) {
 			req.Route = RouteRootCrl
 		}
 	}
+	p.mu.Lock()
+	n := len(p.Log)
 	p.Log = append(p.Log, req)
+	p.mu.Unlock()
 	if p.OnFetch != nil {
 		p.OnFetch(req)
+	}
+	if p.Latency != nil && p.InBubble {
+		time.Sleep(p.Latency(req, n))
 	}
 	if ep == nil {
 		return nil, nil, ErrNotFound
